@@ -32,7 +32,7 @@ if "C04:raise-implies-view-unchanged" in clause:
         seen["before"], seen["after"] = before, after
     f(np.zeros((3, 4), np.float32), B())
     leaked = seen["before"] != seen["after"]
-    out.update(reproduced=bool(leaked), model_concrete=True,
+    out.update(reproduced=bool(leaked), model_concrete=False,
                input={"annotation": 'Float[np.ndarray, "p {b.v}"]', "shape": [3, 4], "b.v raises": X.__name__},
                native={"raised": seen.get("raised"), "bindings_before": repr(seen["before"]), "bindings_after": repr(seen["after"])},
                expected={"bindings_after": repr(seen["before"])},
@@ -43,7 +43,7 @@ elif "C04:nonempty-result-implies-view-unchanged" in clause:
         before = [dict(v) for v in ST.get_shape_memo()[:3]]
         r = isinstance(np.zeros((3, 4), np.float32), Float[np.ndarray, "p p"])
         after = [dict(v) for v in ST.get_shape_memo()[:3]]
-    out.update(reproduced=(before != after), model_concrete=True, input={"annotation": "Float[np.ndarray,'p p']", "shape": [3, 4]},
+    out.update(reproduced=(before != after), model_concrete=False, input={"annotation": "Float[np.ndarray,'p p']", "shape": [3, 4]},
                native={"result": r, "after": repr(after)}, expected={"after": repr(before)})
 else:
     out["error"] = "no native realisation for this clause"
